@@ -46,9 +46,16 @@ Definition arity_can_accept (a : arity) (n : nat) : bool :=
   | ABetween lo hi => Nat.leb lo n && Nat.leb n hi
   | AAtLeast lo => Nat.leb lo n
   end.
+(* follows repo fix dbc5881: `min` is one past the position of the LAST Required parameter
+   (args.iter().rposition(is_required).map_or(0, |i| i + 1)), not the count of required parameters *)
+Fixpoint min_args (args : list lamarg) (i acc : nat) : nat :=
+  match args with
+  | [] => acc
+  | a :: r => min_args r (S i) (if arg_is_req a then S i else acc)
+  end.
 Definition lambda_arity (args : list lamarg) : arity :=
   let has_rest := existsb arg_is_rest args in
-  let mn := length (filter arg_is_req args) in
+  let mn := min_args args 0 0 in
   let mx := length args in
   if has_rest then AAtLeast mn else if Nat.eqb mn mx then AExact mn else ABetween mn mx.
 (* get_function_def(v).arity().can_accept(2); false for non-functions (never asked there) *)
